@@ -192,6 +192,7 @@ type vfWireScen struct {
 	MaxMS       int            `json:"maxMs"`
 	Listen      []int          `json:"listen"` // loopback ports with an accepting TCP server (application scans)
 	Flood       []int          `json:"flood"`  // a frame injected continuously from before the start of sx until its first probe is seen
+	FloodAll    bool           `json:"floodAll"` // ... until sx exits
 	Dev         string         `json:"dev"`    // "tun": the wire is the tun device vft0 (raw-IP mode) instead of the veth
 	Servers     map[string]string `json:"servers"` // port -> behaviour of an accepting loopback server: socks | json | stall | redirect:<url>
 	Env         []string       `json:"env"`     // extra environment of the sx process
@@ -371,7 +372,7 @@ func TestVfWire(t *testing.T) {
 				}
 			}
 			_ = lastT
-			if np >= 1 && len(sc.Flood) > 0 {
+			if np >= 1 && len(sc.Flood) > 0 && !sc.FloodAll {
 				select {
 				case <-floodStop:
 				default:
